@@ -79,7 +79,8 @@ def place_demo(out, k, wt):
 def run_demo(pkgdir, kind, wt):
     rel = "./" + os.path.relpath(pkgdir, wt)
     if kind == "test":
-        return sh([GOW, "test", "-vet=off", "-count=1", "-run", "Demo|Seed|demo|seed|Test", rel], cwd=wt, timeout=1200)
+        extra = ["-race"] if os.environ.get("SEED_RACE") else []
+        return sh([GOW, "test", "-vet=off", "-count=1"] + extra + ["-run", "Demo|Seed|demo|seed|Test", rel], cwd=wt, timeout=1200)
     return sh([GOW, "run", rel], cwd=wt, timeout=1200)
 
 
